@@ -192,6 +192,7 @@ func main() {
 	genProxy()
 	genJA4()
 	genLifecycle()
+	genShared()
 	facts["issues"] = issues
 	keys := make([]string, 0, len(facts))
 	for k := range facts {
